@@ -68,6 +68,12 @@ def run(check, prog):
     constructors(check, prog)
     csg_motion(check, prog)
     bounds_search(check, prog)
+    # `the layer a point lies in`: a sphere given by layer thicknesses has the
+    # running sum of the thicknesses as its radii, computed afresh (not into the
+    # stored thicknesses) on every use (rule shared with C02)
+    from hpstatic.poly import Canon
+    from . import c02
+    c02.layered_radii(check, prog, Canon())
     bounds_union(check, prog)
     voxel_grid(check, prog)
     domain_count(check, prog)
